@@ -1,6 +1,7 @@
 import AgdbColl.Model.MultiMapOps
 import AgdbColl.Lemmas.Inv
 import AgdbColl.Lemmas.Values
+import AgdbColl.Lemmas.IndexInv
 /-!
 # C19 — every query terminates after any history (hashed collections)
 
@@ -112,14 +113,11 @@ def C19_values_terminates_statement (h : K → Nat) : Prop :=
   ∀ m : MM K T, ReachableIndex h m → ∀ key v F, m.cap + 1 ≤ F →
     (∃ r, values h F m key = .ok r) ∧ (∃ r, containsValue h F m key v = .ok r)
 
-/-- **Partial**: the whole iteration terminates on ANY table in which the slot cyclically before
-the key's home position does not hold the key (`NoWrapAt`). What is missing for the full statement:
-a proof that `NoWrapAt` holds after every index-multimap history (`free_index` and the rehash probe
-place a pair at the FIRST non-`Valid` / unoccupied slot from its home — `freeIndexLoop_first`,
-`first_free_not_wrap` in Lemmas/NoWrap.lean — so a pair `capacity - 1` slots from home would need
-`capacity - 1` other `Valid` slots, impossible under the 15/16 load limit; the rehash part of that
-invariant is not machine-checked yet). Each single `next` call terminates unconditionally
-(`C19_value_terminates`). -/
+/-- the whole iteration terminates on ANY table in which the slot cyclically before the key's home
+position does not hold the key (`NoWrapAt`); `C19_values_terminates` discharges that hypothesis for
+every index-multimap state (`C19_index_nowrap`: `free_index` and the rehash probe place a pair at the
+FIRST non-`Valid` / unoccupied slot from its home, so a pair `capacity - 1` slots from home would need
+`capacity - 1` other `Valid` slots, impossible under the 15/16 load limit). -/
 theorem C19_values_terminates_partial (h : K → Nat) (m : MM K T) (key : K) (v : T)
     (hnw : NoWrapAt m.slots key (homePos h m key)) :
     ∀ F, m.cap + 1 ≤ F →
@@ -136,6 +134,40 @@ theorem C19_values_terminates_partial (h : K → Nat) (m : MM K T) (key : K) (v 
     have hd0 : distFrom m.slots.length (homePos h m key) (homePos h m key) = 0 := by simp [distFrom]
     exact ⟨collectLoop_ok key _ m.slots hhome F (by omega) hnw F _ [] hhome (by omega),
       containsValueLoop_ok key v _ m.slots hhome F (by omega) hnw F _ hhome (by omega)⟩
+
+theorem reachableIndex_reachable (h : K → Nat) (m : MM K T) (hr : ReachableIndex h m) :
+    Reachable h m := by
+  induction hr with
+  | init => exact ReachableW.init
+  | step F op _ _ hF hok ih => exact ReachableW.step F op ih hF hok
+
+/-- on every state of an index multimap no pair sits in the slot before its home (`NoWrap`) -/
+theorem C19_index_nowrap (h : K → Nat) (m : MM K T) (hr : ReachableIndex h m) : NoWrap h m.slots := by
+  induction hr with
+  | init => intro p hp; simp [MM.new] at hp
+  | @step m0 m1 F op hr0 hnior hF hok ih =>
+    have hi := C19_inv_reachable h m0 (reachableIndex_reachable h m0 hr0)
+    cases op with
+    | insert k v =>
+      exact insert_nowrap h F m0 m1 k v hi ih (by simpa [opFuel, fuelBound] using hF) hok
+    | insertOrReplace k p v => exact absurd rfl (hnior k p v)
+    | removeKey k =>
+      exact removeKey_nowrap h F m0 m1 k hi ih (by simpa [opFuel, fuelBound] using hF) hok
+    | removeValue k v =>
+      exact removeValue_nowrap h F m0 m1 k v hi ih (by simpa [opFuel, fuelBound] using hF) hok
+    | reserve c => exact reserve_nowrap h F m0 m1 c hi ih hok
+
+/-- **Termination of draining `iter_key`** (full, for the histories of the index multimap): after
+any history of `insert` / `remove_key` / `remove_value` / `reserve` (incl. every rehash, grow and
+shrink), `values` / `values_count` and `contains_value` return for every fuel `> capacity`. -/
+theorem C19_values_terminates (h : K → Nat) : C19_values_terminates_statement (K := K) (T := T) h := by
+  intro m hr key v F hF
+  have hn := C19_index_nowrap h m hr
+  apply C19_values_terminates_partial h m key v _ F hF
+  by_cases h0 : m.cap = 0
+  · intro p hp; simp only [MM.cap] at h0; omega
+  · simp only [homePos, h0, if_false]
+    exact hn.at key
 
 /-- every history runs to completion (so `Reachable` is the closure over ALL histories) -/
 theorem C19_every_history_runs (h : K → Nat) (ops : List (MOp K T)) :
